@@ -193,3 +193,54 @@ func (p IPoly) Bounds() (x0, y0, x1, y1 int) {
 	}
 	return
 }
+
+// IsSimple reports whether the closed polygon c (integer vertices, implicitly closed) is simple: no two consecutive vertices
+// coincide, adjacent edges share only their common vertex (no spike that folds back onto the previous edge) and non-adjacent
+// edges have no point in common.  Exact: all tests are integer orientation tests.
+func IsSimple(c []IPt) bool {
+	n := len(c)
+	if n < 3 {
+		return false
+	}
+	orient := func(a, b, p IPt) int64 {
+		return int64(b.X-a.X)*int64(p.Y-a.Y) - int64(b.Y-a.Y)*int64(p.X-a.X)
+	}
+	sgn := func(v int64) int {
+		if v > 0 {
+			return 1
+		} else if v < 0 {
+			return -1
+		}
+		return 0
+	}
+	within := func(a, b, p IPt) bool { // p collinear with ab: inside the closed bounding box
+		return min(a.X, b.X) <= p.X && p.X <= max(a.X, b.X) && min(a.Y, b.Y) <= p.Y && p.Y <= max(a.Y, b.Y)
+	}
+	touch := func(a, b, p, q IPt) bool {
+		o1, o2, o3, o4 := sgn(orient(a, b, p)), sgn(orient(a, b, q)), sgn(orient(p, q, a)), sgn(orient(p, q, b))
+		if o1*o2 < 0 && o3*o4 < 0 {
+			return true
+		}
+		return o1 == 0 && within(a, b, p) || o2 == 0 && within(a, b, q) || o3 == 0 && within(p, q, a) || o4 == 0 && within(p, q, b)
+	}
+	for i := 0; i < n; i++ {
+		a, b := c[i], c[(i+1)%n]
+		if a == b {
+			return false
+		}
+		// the next edge may not fold back onto this one
+		d := c[(i+2)%n]
+		if orient(a, b, d) == 0 && int64(b.X-a.X)*int64(d.X-b.X)+int64(b.Y-a.Y)*int64(d.Y-b.Y) < 0 {
+			return false
+		}
+		for j := i + 2; j < n; j++ {
+			if i == 0 && j == n-1 {
+				continue // adjacent through the closing vertex
+			}
+			if touch(a, b, c[j], c[(j+1)%n]) {
+				return false
+			}
+		}
+	}
+	return true
+}
